@@ -464,6 +464,19 @@ func gWrite(out *gio.DataOutputX, o *op) {
 // gRead performs the matching read and returns "" when the value is bit-identical, else a
 // description of the difference.
 func gRead(in *gio.DataInputX, o *op) string {
+	msg, _ := gReadHold(in, o)
+	return msg
+}
+
+// gReadHold is gRead that also hands back what the read returned when that is a slice or a
+// string (held by the ownership monitor, see own.go); nil for the scalar reads.
+func gReadHold(in *gio.DataInputX, o *op) (string, *heldVal) {
+	var hv *heldVal
+	msg := gReadInto(in, o, &hv)
+	return msg, hv
+}
+
+func gReadInto(in *gio.DataInputX, o *op, hv **heldVal) string {
 	num := func(got, want int64) string {
 		if got == want {
 			return ""
@@ -532,45 +545,69 @@ func gRead(in *gio.DataInputX, o *op) string {
 		n := in.ReadByte()
 		return num(in.ReadDecimalLen(int(n)), o.i)
 	case kBlob:
-		return bs(in.ReadBlob(), o.b)
+		g := in.ReadBlob()
+		*hv = holdBytes(g)
+		return bs(g, o.b)
 	case kText:
-		return str(in.ReadText(), o.s)
+		g := in.ReadText()
+		*hv = holdString(g)
+		return str(g, o.s)
 	case kShortBytes:
-		return bs(in.ReadShortBytes(), o.b)
+		g := in.ReadShortBytes()
+		*hv = holdBytes(g)
+		return bs(g, o.b)
 	case kTextShort:
-		return str(in.ReadTextShortLength(), o.s)
+		g := in.ReadTextShortLength()
+		*hv = holdString(g)
+		return str(g, o.s)
 	case kIntBytes:
+		var g []byte
 		if o.rd == 0 {
-			return bs(in.ReadIntBytes(), o.b)
+			g = in.ReadIntBytes()
+		} else {
+			g = in.ReadIntBytesLimit(len(o.b) + o.lim)
 		}
-		return bs(in.ReadIntBytesLimit(len(o.b)+o.lim), o.b)
+		*hv = holdBytes(g)
+		return bs(g, o.b)
 	case kBytes:
-		return bs(in.ReadBytes(int32(len(o.b))), o.b)
+		g := in.ReadBytes(int32(len(o.b)))
+		*hv = holdBytes(g)
+		return bs(g, o.b)
 	case kWriteOff:
-		return bs(in.ReadBytes(int32(len(o.window()))), o.window())
+		g := in.ReadBytes(int32(len(o.window())))
+		*hv = holdBytes(g)
+		return bs(g, o.window())
 	case kShortArr:
 		g := in.ReadShortArray()
+		*hv = holdI16(g)
 		return arr(eqSlice(g, o.i16, func(a, b int16) bool { return a == b }), len(g), len(o.i16))
 	case kIntArr:
 		g := in.ReadIntArray()
+		*hv = holdI32(g)
 		return arr(eqSlice(g, o.i32, func(a, b int32) bool { return a == b }), len(g), len(o.i32))
 	case kLongArr:
 		g := in.ReadLongArray()
+		*hv = holdI64(g)
 		return arr(eqSlice(g, o.i64, func(a, b int64) bool { return a == b }), len(g), len(o.i64))
 	case kFloatArr:
 		g := in.ReadFloatArray()
+		*hv = holdF32(g)
 		return arr(eqSlice(g, o.f32, eqF32), len(g), len(o.f32))
 	case kDoubleArr:
 		g := in.ReadDoubleArray()
+		*hv = holdF64(g)
 		return arr(eqSlice(g, o.f64, eqF64), len(g), len(o.f64))
 	case kTextArr:
 		g := in.ReadTextArray()
+		*hv = holdStrings(g)
 		return arr(eqSlice(g, o.ss, func(a, b string) bool { return a == b }), len(g), len(o.ss))
 	case kDecArr:
 		g := in.ReadDecimalArray()
+		*hv = holdI64(g)
 		return arr(eqSlice(g, o.i64, func(a, b int64) bool { return a == b }), len(g), len(o.i64))
 	case kDecArrInt:
 		g := in.ReadDecimalArrayInt()
+		*hv = holdI32(g)
 		return arr(eqSlice(g, o.i32, func(a, b int32) bool { return a == b }), len(g), len(o.i32))
 	case kLE16s:
 		return num(int64(in.ReadShortLittle()), int64(int16(o.i)))
@@ -590,6 +627,76 @@ type progResult struct {
 	bytes   []byte // golib's output
 	refLen  int
 	aborted bool
+}
+
+// cloneArgs copies the slices an op passes to its writer (nil stays nil), so that the executor
+// can write over what the writer was given after the call without losing the expected values.
+func cloneArgs(o *op) (clone *op, intact func() bool, scribble func()) {
+	c := *o
+	if o.b != nil {
+		c.b = append([]byte{}, o.b...)
+	}
+	if o.i16 != nil {
+		c.i16 = append([]int16{}, o.i16...)
+	}
+	if o.i32 != nil {
+		c.i32 = append([]int32{}, o.i32...)
+	}
+	if o.i64 != nil {
+		c.i64 = append([]int64{}, o.i64...)
+	}
+	if o.f32 != nil {
+		c.f32 = append([]float32{}, o.f32...)
+	}
+	if o.f64 != nil {
+		c.f64 = append([]float64{}, o.f64...)
+	}
+	if o.ss != nil {
+		c.ss = append([]string{}, o.ss...)
+	}
+	intact = func() bool {
+		return bytes.Equal(c.b, o.b) && eqSlice(c.i16, o.i16, func(a, b int16) bool { return a == b }) &&
+			eqSlice(c.i32, o.i32, func(a, b int32) bool { return a == b }) && eqSlice(c.i64, o.i64, func(a, b int64) bool { return a == b }) &&
+			eqSlice(c.f32, o.f32, eqF32) && eqSlice(c.f64, o.f64, eqF64) && eqSlice(c.ss, o.ss, func(a, b string) bool { return a == b })
+	}
+	scribble = func() {
+		for i := range c.b {
+			c.b[i] ^= 0xFF
+		}
+		for i := range c.i16 {
+			c.i16[i] = ^c.i16[i]
+		}
+		for i := range c.i32 {
+			c.i32[i] = ^c.i32[i]
+		}
+		for i := range c.i64 {
+			c.i64[i] = ^c.i64[i]
+		}
+		for i := range c.f32 {
+			c.f32[i] = math.Float32frombits(^math.Float32bits(c.f32[i]))
+		}
+		for i := range c.f64 {
+			c.f64[i] = math.Float64frombits(^math.Float64bits(c.f64[i]))
+		}
+		for i := range c.ss {
+			c.ss[i] += "~"
+		}
+	}
+	return &c, intact, scribble
+}
+
+func (o *op) hasSliceArg() bool {
+	return o.b != nil || o.i16 != nil || o.i32 != nil || o.i64 != nil || o.f32 != nil || o.f64 != nil || o.ss != nil
+}
+
+// reader is one DataInputX over one watched buffer, replaying the program from its first op.
+type reader struct {
+	in     *gio.DataInputX
+	img    []byte
+	idx    int // the monitor's number for this input
+	next   int // next op to read
+	canary bool
+	ok     bool
 }
 
 // runProgram executes ops against golib and the reference and checks every clause of the
@@ -623,8 +730,12 @@ func (h *harness) runProgram(section string, ops []op) progResult {
 			return progResult{aborted: true}
 		}
 	}
+	// the monitor's own choices (see own.go) follow from the program.
+	pk := pick(vlib.HashBytes(w.B) ^ uint64(len(ops))<<32)
+	ownArgs := pk.intn(2) == 0
 
-	// 2. golib writes; Size() and the produced bytes after every single write.
+	// 2. golib writes; Size() and the produced bytes after every single write. Earlier
+	// ToByteArray() results are held (the returned slices themselves) while the writes go on.
 	out := gio.NewDataOutputX()
 	gEnd := make([]int, len(ops))
 	prev, prevRef, prevSz := 0, 0, out.Size()
@@ -634,10 +745,19 @@ func (h *harness) runProgram(section string, ops []op) progResult {
 		}
 	}
 	segDiff := false
+	var snaps [4][]byte // [0] the previous result, [1..3] results kept from further back
+	var snapAt [4]int
+	kept := 0
 	for i := range ops {
 		o := &ops[i]
+		wo := o
+		var argIntact func() bool
+		var argScribble func()
+		if ownArgs && o.hasSliceArg() {
+			wo, argIntact, argScribble = cloneArgs(o)
+		}
 		var sz int
-		if p := vlib.Catch(func() { gWrite(out, o); sz = out.Size() }); p != nil {
+		if p := vlib.Catch(func() { gWrite(out, wo); sz = out.Size() }); p != nil {
 			key := "program:panic@" + o.wname()
 			if rp.first(key) {
 				c.Fail(key, fmt.Sprintf("%s panicked: %v", o.wname(), p), detail(map[string]interface{}{"op_index": i}))
@@ -658,7 +778,8 @@ func (h *harness) runProgram(section string, ops []op) progResult {
 		prevSz = sz
 		seg, ref := got[prev:], w.B[prevRef:refEnd[i]]
 		t.bytesCompared += int64(len(ref))
-		if !bytes.Equal(seg, ref) {
+		segOK := bytes.Equal(seg, ref)
+		if !segOK {
 			segDiff = true
 			key := "program:bytes-differ@" + o.wname()
 			what := fmt.Sprintf("op %d (%s): golib emitted %s, the reference encoder emits %s", i, o.wname(), vlib.Hex(seg), vlib.Hex(ref))
@@ -674,6 +795,48 @@ func (h *harness) runProgram(section string, ops []op) progResult {
 				c.Fail(key, what, detail(map[string]interface{}{"op_index": i, "golib_hex": vlib.Hex(seg), "reference_hex": vlib.Hex(ref)}))
 			}
 		}
+		// the slices the writer was given belong to the caller again once the call returns:
+		// the writer has not written to them, and overwriting them now changes nothing.
+		if argIntact != nil {
+			h.own.argsHeld++
+			if !argIntact() {
+				if key := "DataOutputX." + o.wname() + ":argument-written"; rp.first(key) {
+					c.Fail(key, fmt.Sprintf("op %d: %s changed the slice it was given", i, o.wname()), detail(map[string]interface{}{"op_index": i}))
+				}
+			}
+			argScribble()
+			h.own.argsScribbled++
+			if now := out.ToByteArray(); segOK && (len(now) != len(got) || !bytes.Equal(now[prev:], ref)) {
+				segDiff = true
+				if key := "DataOutputX." + o.wname() + ":argument-retained"; rp.first(key) {
+					c.Fail(key, fmt.Sprintf("op %d: the bytes %s had produced changed when the caller overwrote the slice it had passed (now %s, were %s)", i, o.wname(), vlib.Hex(now[prev:]), vlib.Hex(ref)),
+						detail(map[string]interface{}{"op_index": i}))
+				}
+			}
+		}
+		// every held ToByteArray() result still is the prefix it was when returned (the
+		// reference prefix, as long as every op's own bytes matched).
+		if !segDiff {
+			for s := 0; s <= kept; s++ {
+				if snaps[s] == nil {
+					continue
+				}
+				h.own.snapshotChecks++
+				if !bytes.Equal(snaps[s], w.B[:len(snaps[s])]) {
+					if key := "DataOutputX.ToByteArray:result-altered-later"; rp.first(key) {
+						c.Fail(key, fmt.Sprintf("the %d bytes ToByteArray() returned after op %d changed while op %d (%s) was written: now %s, were %s", len(snaps[s]), snapAt[s], i, o.wname(), vlib.Hex(snaps[s]), vlib.Hex(w.B[:len(snaps[s])])),
+							detail(map[string]interface{}{"op_index": i, "snapshot_after_op": snapAt[s]}))
+					}
+					snaps[s] = nil
+				}
+			}
+			if snaps[0] != nil && kept < 3 && pk.intn(6) == 0 {
+				kept++
+				snaps[kept], snapAt[kept] = snaps[0], snapAt[0]
+			}
+			snaps[0], snapAt[0] = got, i
+			h.own.snapshots++
+		}
 		prev, prevRef = len(got), refEnd[i]
 		gEnd[i] = prev
 	}
@@ -687,9 +850,12 @@ func (h *harness) runProgram(section string, ops []op) progResult {
 	}
 
 	// 3. replay as the matching reads: once with three canary bytes behind the stream, once
-	// ending exactly at the last field. A stream that is not the reference stream has already
-	// been reported; it is not read back (a reader handed a length prefix of a different form
-	// would allocate from payload bytes taken as a length).
+	// ending exactly at the last field, and once more from a third input that is created while
+	// the second is being read and is read in step with it. Everything the reads hand out is
+	// held and re-verified after every further read on any of the inputs (own.go). A stream
+	// that is not the reference stream has already been reported; it is not read back (a reader
+	// handed a length prefix of a different form would allocate from payload bytes taken as a
+	// length).
 	res := progResult{bytes: produced, refLen: w.Len()}
 	if segDiff || !bytes.Equal(produced, w.B) {
 		t.programs++
@@ -698,62 +864,108 @@ func (h *harness) runProgram(section string, ops []op) progResult {
 		res.aborted = true
 		return res
 	}
-	for pass := 0; pass < 2; pass++ {
-		img := produced
-		if pass == 0 {
-			img = append(append([]byte{}, produced...), canary...)
+	mon := &ownMon{h: h, detail: detail, pk: pk, scribble: pk.intn(4) != 0}
+	open := func(img []byte, name string, canary bool) *reader {
+		return &reader{in: gio.NewDataInputX(img), img: img, idx: mon.watch(img, name), canary: canary, ok: true}
+	}
+	step := func(rd *reader) {
+		i := rd.next
+		rd.next++
+		o := &ops[i]
+		var msg string
+		var hv *heldVal
+		var av int32
+		if p := vlib.Catch(func() { msg, hv = gReadHold(rd.in, o); av = rd.in.Available() }); p != nil {
+			key := "program:panic@" + o.rname()
+			if rp.first(key) {
+				c.Fail(key, fmt.Sprintf("op %d: %s panicked on the bytes its own writer produced: %v", i, o.rname(), p),
+					detail(map[string]interface{}{"op_index": i, "golib_hex": vlib.Hex(produced), "canary": rd.canary, "input": mon.inputs[rd.idx].name}))
+			}
+			rd.ok = false
+			mon.inputIntact(rd.idx, o.rname())
+			return
 		}
-		in := gio.NewDataInputX(img)
-		ok := true
-		for i := range ops {
-			o := &ops[i]
-			var msg string
-			var av int32
-			if p := vlib.Catch(func() { msg = gRead(in, o); av = in.Available() }); p != nil {
-				key := "program:panic@" + o.rname()
-				if rp.first(key) {
-					c.Fail(key, fmt.Sprintf("op %d: %s panicked on the bytes its own writer produced: %v", i, o.rname(), p),
-						detail(map[string]interface{}{"op_index": i, "golib_hex": vlib.Hex(produced), "canary": pass == 0}))
-				}
-				ok = false
-				break
+		t.readsChecked++
+		if msg != "" {
+			key := "program:value-differs@" + o.rname()
+			if o.isLE() {
+				key = o.rname() + ":not-little-endian"
 			}
-			t.readsChecked++
-			if msg != "" {
-				key := "program:value-differs@" + o.rname()
-				if o.isLE() {
-					key = o.rname() + ":not-little-endian"
-				}
-				if rp.first(key) {
-					c.Fail(key, fmt.Sprintf("op %d: %s after %s: %s", i, o.rname(), o.wname(), msg),
-						detail(map[string]interface{}{"op_index": i, "golib_hex": vlib.Hex(produced), "canary": pass == 0}))
-				}
-			}
-			t.availChecks++
-			if want := int32(len(img) - gEnd[i]); av != want {
-				key := "Available:wrong@" + o.rname()
-				if rp.first(key) {
-					c.Fail(key, fmt.Sprintf("op %d: Available()=%d after %s, but %d of %d bytes belong to the fields read so far (expected %d)", i, av, o.rname(), gEnd[i], len(img), want),
-						detail(map[string]interface{}{"op_index": i, "available": av, "expected": want, "golib_hex": vlib.Hex(produced), "canary": pass == 0}))
-				}
-				ok = false
-				break // the stream position is off; later reads would only repeat the report
+			if rp.first(key) {
+				c.Fail(key, fmt.Sprintf("op %d: %s after %s: %s", i, o.rname(), o.wname(), msg),
+					detail(map[string]interface{}{"op_index": i, "golib_hex": vlib.Hex(produced), "canary": rd.canary, "input": mon.inputs[rd.idx].name,
+						"caller_overwrote_some_returned_slice_before": mon.anyScr}))
 			}
 		}
-		if ok && pass == 0 {
-			var tail []byte
-			var av int32
-			p := vlib.Catch(func() { tail = in.ReadBytes(3); av = in.Available() })
-			if p != nil || !bytes.Equal(tail, canary) || av != 0 {
-				if rp.first("program:canary-consumed") {
-					c.Fail("program:canary-consumed", fmt.Sprintf("after all matching reads the three canary bytes are not what remains (got %x, Available()=%d, panic=%v)", tail, av, p),
-						detail(map[string]interface{}{"golib_hex": vlib.Hex(produced)}))
-				}
+		t.availChecks++
+		if want := int32(len(rd.img) - gEnd[i]); av != want {
+			key := "Available:wrong@" + o.rname()
+			if rp.first(key) {
+				c.Fail(key, fmt.Sprintf("op %d: Available()=%d after %s, but %d of %d bytes belong to the fields read so far (expected %d)", i, av, o.rname(), gEnd[i], len(rd.img), want),
+					detail(map[string]interface{}{"op_index": i, "available": av, "expected": want, "golib_hex": vlib.Hex(produced), "canary": rd.canary}))
+			}
+			rd.ok = false // the stream position is off; later reads would only repeat the report
+		}
+		mon.add(hv, o.rname(), rd.idx, i)
+		mon.verify(o.rname(), i, rd.idx, false)
+		mon.inputIntact(rd.idx, o.rname())
+		mon.maybeScribble(o.rname())
+	}
+
+	a := open(append(append([]byte{}, produced...), canary...), "A (stream + 3 canary bytes)", true)
+	for a.ok && a.next < len(ops) {
+		step(a)
+	}
+	if a.ok {
+		var tail []byte
+		var av int32
+		p := vlib.Catch(func() { tail = a.in.ReadBytes(3); av = a.in.Available() })
+		if p != nil || !bytes.Equal(tail, canary) || av != 0 {
+			if rp.first("program:canary-consumed") {
+				c.Fail("program:canary-consumed", fmt.Sprintf("after all matching reads the three canary bytes are not what remains (got %x, Available()=%d, panic=%v)", tail, av, p),
+					detail(map[string]interface{}{"golib_hex": vlib.Hex(produced)}))
 			}
 		}
-		if !ok {
-			res.aborted = true
+		if p == nil {
+			mon.add(holdBytes(tail), "ReadBytes", a.idx, len(ops))
 		}
+	}
+	mon.verify("ReadBytes", len(ops), a.idx, true)
+	mon.inputsIntact("ReadBytes", "every field of input A was read", false)
+
+	b := open(produced, "B (the stream exactly)", false)
+	var cR *reader
+	startC := mon.pk.intn(len(ops) + 1)
+	for {
+		if cR == nil && (b.next >= startC || !b.ok) {
+			cR = open(append([]byte{}, produced...), fmt.Sprintf("C (created after %d reads on B)", b.next), false)
+		}
+		progressed := false
+		if b.ok && b.next < len(ops) {
+			step(b)
+			progressed = true
+		}
+		if cR != nil && cR.ok && cR.next < len(ops) {
+			step(cR)
+			progressed = true
+		}
+		if !progressed && cR != nil {
+			break
+		}
+	}
+	last := "NewDataInputX"
+	if len(ops) > 0 {
+		last = ops[len(ops)-1].rname()
+	}
+	mon.verify(last, len(ops)-1, -1, true)
+	mon.inputsIntact(last, "every field of every input was read", false)
+	if !a.ok || !b.ok || (cR != nil && !cR.ok) {
+		res.aborted = true
+	}
+
+	// 4. the writer is re-used while its earlier ToByteArray() result is held.
+	if !res.aborted {
+		h.headerReuse(out, produced, mon.pk.intn(3), detail)
 	}
 	t.programs++
 	t.programOps += int64(len(ops))
